@@ -27,18 +27,13 @@ Definition ost_eqb (a b : ost) : bool :=
 Record conn := mkConn {
   c_st : ost;
   c_reader : bool;          (* its reader goroutine is still running *)
-  c_sess : option N;        (* the session it is attached to *)
-  c_busy : option N }.      (* its reader goroutine is inside a packet callback of that session
-                               (interleaved frame handed to OnPacketRTP / OnPacketRTCP / OnDecodeError) *)
+  c_sess : option N }.      (* the session it is attached to *)
 
 Record sess := mkSess {
   s_st : ost;
   s_conns : list N;         (* ServerSession.conns *)
   s_workers : N;            (* running worker goroutines: writer consumer, RTCP report goroutines *)
-  s_media : bool;           (* the session's medias are started: registered with the UDP listeners *)
-  s_srun : N }.             (* callbacks of this session in progress that are NOT run by a connection's reader:
-                               UDP listener goroutines (packet callbacks), the session's own goroutine (request
-                               callbacks), the stream writer's goroutine (OnStreamWriteError) *)
+  s_media : bool }.         (* packet callbacks of this session can still be invoked *)
 
 (* handler callbacks, in the order they are invoked *)
 Inductive cb :=
@@ -46,11 +41,7 @@ Inductive cb :=
 | CbSessOpen (s c : N) | CbSessClose (s : N)
 | CbReq (c : N)                 (* OnRequest / OnDescribe / ... of a connection *)
 | CbReqS (c s : N)              (* OnSetup / OnPlay / OnRecord / OnPause / ... : a request inside a session *)
-| CbPkt (s : N)                 (* an instantaneous session callback (kept for logs without begin/end events) *)
-| CbPktB (c s : N)              (* the reader of connection c begins a packet callback of session s *)
-| CbPktE (c : N)                (* ... and returns from it *)
-| CbSB (s : N)                  (* a callback of session s begins on a goroutine other than a connection reader *)
-| CbSE (s : N).                 (* ... and returns *)
+| CbPkt (s : N).                (* OnPacketRTP / OnPacketRTCP / OnDecodeError / OnPacketsLost of a session *)
 
 Record state := mkSt {
   sv : ost;
